@@ -46,7 +46,11 @@ Inductive fdef :=
 Inductive ekind := Enter | Recur | Clean | Cease | Abort | Exit | ExtRet | RemRet | DoReturn | DoRaise.
 Record ev := { e_kind : ekind; e_id : id; e_tyme : T }.
 
-Inductive gstate := GNew | GSusp (pc : nat) | GDone.
+(* GRun: the generator is executing (between a send/next and the following yield).
+   Python refuses to start, resume or close a running generator (ValueError:
+   generator already executing); the model makes those operations no-ops, which
+   is never exercised by the program class of the correspondence. *)
+Inductive gstate := GNew | GSusp (pc : nat) | GRun (pc : nat) | GDone.
 
 Inductive deed := DMark | DDeed (i : id) (retyme : T).
 
@@ -60,6 +64,7 @@ Record st := {
   scheds : amap sched;          (* 0 = root Doist, i = DoDoer i *)
   trace : list ev;              (* newest first *)
   oof : bool;                   (* fuel ran out somewhere: result meaningless *)
+  rlive : bool;                 (* the root Doist is past its enter (its run loop is active) *)
 }.
 
 Inductive gres :=
@@ -71,19 +76,21 @@ Inductive gres :=
 (* ---------- small state helpers ---------- *)
 
 Definition set_tyme s t := {| tyme := t; defs := defs s; gens := gens s; dones := dones s;
-                              scheds := scheds s; trace := trace s; oof := oof s |}.
+                              scheds := scheds s; trace := trace s; oof := oof s; rlive := rlive s |}.
 Definition set_gen s i g := {| tyme := tyme s; defs := defs s; gens := set (gens s) i g; dones := dones s;
-                               scheds := scheds s; trace := trace s; oof := oof s |}.
+                               scheds := scheds s; trace := trace s; oof := oof s; rlive := rlive s |}.
 Definition set_done s i d := {| tyme := tyme s; defs := defs s; gens := gens s; dones := set (dones s) i d;
-                                scheds := scheds s; trace := trace s; oof := oof s |}.
+                                scheds := scheds s; trace := trace s; oof := oof s; rlive := rlive s |}.
 Definition set_sched s i c := {| tyme := tyme s; defs := defs s; gens := gens s; dones := dones s;
-                                 scheds := set (scheds s) i c; trace := trace s; oof := oof s |}.
+                                 scheds := set (scheds s) i c; trace := trace s; oof := oof s; rlive := rlive s |}.
 Definition emit s k i := {| tyme := tyme s; defs := defs s; gens := gens s; dones := dones s;
                             scheds := scheds s;
                             trace := {| e_kind := k; e_id := i; e_tyme := tyme s |} :: trace s;
-                            oof := oof s |}.
+                            oof := oof s; rlive := rlive s |}.
 Definition out_of_fuel s := {| tyme := tyme s; defs := defs s; gens := gens s; dones := dones s;
-                               scheds := scheds s; trace := trace s; oof := true |}.
+                               scheds := scheds s; trace := trace s; oof := true; rlive := rlive s |}.
+Definition set_rlive s b := {| tyme := tyme s; defs := defs s; gens := gens s; dones := dones s;
+                              scheds := scheds s; trace := trace s; oof := oof s; rlive := b |}.
 
 Definition get_gen s i : gstate := match get (gens s) i with Some g => g | None => GNew end.
 Definition get_done s i : option bool := match get (dones s) i with Some d => d | None => None end.
@@ -136,7 +143,11 @@ Definition done_after (k : kind) (r : ret) (old : option bool) : option bool :=
 
 (* a scheduler is running: its generator is suspended at a yield (for the root: past enter) *)
 Definition live (s : st) (sid : id) : bool :=
-  match get_gen s sid with GSusp _ => true | _ => false end.
+  if N.eqb sid 0 then rlive s else
+  match get_gen s sid with GSusp _ | GRun _ => true | _ => false end.
+
+Definition startable (s : st) (i : id) : bool :=
+  match get_gen s i with GNew | GDone => true | _ => false end.
 
 Definition sched_tock (root_tock : T) (s : st) (sid : id) : T :=
   if N.eqb sid 0 then root_tock else
@@ -154,12 +165,13 @@ Fixpoint gen_start (fuel : nat) (s : st) (i : id) {struct fuel} : st * gres :=
   match fuel with
   | O => (out_of_fuel s, GFuel)
   | S f =>
+    if negb (startable s i) then (s, GReturn) else
     match get (defs s) i with
     | None => (s, GReturn)
     | Some (FLeaf k script) =>
-      run_step f (emit s Enter i) i k script 0
+      run_step f (emit (set_gen s i (GRun 0)) Enter i) i k script 0
     | Some (FNest t0 always kids) =>
-      let s1 := emit s Enter i in
+      let s1 := emit (set_gen s i (GRun 0)) Enter i in
       let '(s2, r) := enter_own f s1 i (doers (get_sched s1 i)) in
       match r with
       | GRaise kbd =>
@@ -203,9 +215,9 @@ with gen_send (fuel : nat) (s : st) (i : id) {struct fuel} : st * gres :=
   | O => (out_of_fuel s, GFuel)
   | S f =>
     match get_gen s i, get (defs s) i with
-    | GSusp pc, Some (FLeaf k script) => run_step f (emit s Recur i) i k script pc
+    | GSusp pc, Some (FLeaf k script) => run_step f (emit (set_gen s i (GRun pc)) Recur i) i k script pc
     | GSusp pc, Some (FNest t0 always kids) =>
-      let s1 := emit s Recur i in
+      let s1 := emit (set_gen s i (GRun pc)) Recur i in
       let '(s2, r) := recur_pass f s1 i in
       match r with
       | GRaise kbd =>
@@ -219,7 +231,7 @@ with gen_send (fuel : nat) (s : st) (i : id) {struct fuel} : st * gres :=
         if empty && negb always then
           let s4 := close_own f (emit s3 Clean i) i in
           (set_gen (emit s4 Exit i) i GDone, GReturn)
-        else (s3, GYield (Some (tabs t0)))
+        else (set_gen s3 i (GSusp pc), GYield (Some (tabs t0)))
       end
     | _, _ => (s, GReturn)    (* send to a finished generator: StopIteration(None) *)
     end
@@ -231,9 +243,9 @@ with gen_close (fuel : nat) (s : st) (i : id) {struct fuel} : st :=
   | O => out_of_fuel s
   | S f =>
     match get_gen s i, get (defs s) i with
-    | GSusp _, Some (FLeaf _ _) => set_gen (emit (emit s Cease i) Exit i) i GDone
-    | GSusp _, Some (FNest _ _ _) =>
-      let s1 := close_own f (emit s Cease i) i in
+    | GSusp pc, Some (FLeaf _ _) => set_gen (emit (emit (set_gen s i (GRun pc)) Cease i) Exit i) i GDone
+    | GSusp pc, Some (FNest _ _ _) =>
+      let s1 := close_own f (emit (set_gen s i (GRun pc)) Cease i) i in
       set_gen (emit s1 Exit i) i GDone
     | _, _ => s
     end
@@ -418,7 +430,7 @@ Definition init_scheds (p : prog) : amap sched :=
 
 Definition init_st (p : prog) : st :=
   {| tyme := p_tyme p; defs := p_defs p; gens := []; dones := [(0%N, Some false)];
-     scheds := init_scheds p; trace := []; oof := false |}.
+     scheds := init_scheds p; trace := []; oof := false; rlive := false |}.
 
 Definition do_run (cycles fuel : nat) (p : prog) : st :=
   let s0 := init_st p in
@@ -429,7 +441,7 @@ Definition do_run (cycles fuel : nat) (p : prog) : st :=
   | _ =>
     let limit := option_map tabs (p_limit p) in
     let stop := tadd (tyme s1) (match limit with Some l => l | None => tzero end) in
-    cycle_loop (p_tock p) cycles fuel (set_gen s1 0%N (GSusp 0)) limit stop
+    cycle_loop (p_tock p) cycles fuel (set_rlive s1 true) limit stop
   end.
 
 (* Doist.ado differs from Doist.do only in how it waits between cycles
